@@ -8,6 +8,36 @@ sys.path.insert(0, os.path.dirname(os.path.abspath(__file__)))
 import common  # noqa: E402
 
 
+def watchdog(a, seed):
+    """Runs the check in a child process group and kills it when it does not finish: an SDK operation that never returns
+    (a lock left held, an endless loop) must end in a verdict, not in a check that hangs.  The harnesses have their own
+    per-operation time limits where they expect this; this is the net below them."""
+    import signal
+    import subprocess
+    limit = int(os.environ.get("VERIF_WATCHDOG_S", "0") or 0) or (1800 if a.tier == "quick" else 10800)
+    env = dict(os.environ, VERIF_WATCHDOG_CHILD="1")
+    p = subprocess.Popen([sys.executable, os.path.abspath(__file__), a.pid, "--tier", a.tier], env=env,
+                         start_new_session=True)
+    try:
+        return p.wait(timeout=limit)
+    except subprocess.TimeoutExpired:
+        try:
+            os.killpg(p.pid, signal.SIGKILL)
+        except OSError:
+            pass
+        p.wait()
+        chk = common.Check(a.pid, a.tier, seed)
+        chk.tie_broken("watchdog", f"the check did not terminate within {limit} s and was killed: an operation of the SDK "
+                                   "(or of the harness) never returned; the output above shows how far it got")
+        return chk.finish(level="proof", rule="check killed by the watchdog")
+    except KeyboardInterrupt:
+        try:
+            os.killpg(p.pid, signal.SIGKILL)
+        except OSError:
+            pass
+        raise
+
+
 def main():
     # SDK log records that no harness handler takes would otherwise go to stderr through logging.lastResort and
     # interleave with the verdict lines; a root NullHandler takes them (harness handlers and levels are unaffected)
@@ -22,6 +52,8 @@ def main():
     mod = importlib.import_module(a.pid.lower())
     if a.replay:
         sys.exit(mod.replay(a.replay))
+    if os.environ.get("VERIF_WATCHDOG_CHILD") != "1":
+        sys.exit(watchdog(a, seed))
     chk = common.Check(a.pid, a.tier, seed)
     try:
         rc = mod.run(chk)
